@@ -11,6 +11,10 @@
 
       [Lit h]                        HTML text [h] produced by marko alone
       [Brace src]                    a ScaledValueExpression (outside headings); [src] = text between the braces
+      [Alt src]                      a ScaledValueExpression inside image alt text: marko renders alt text with
+                                     [render_plain_text], which emits [escape_html(element.children)] and
+                                     never calls the mixin; [children] is [str(self.string)], the UNSCALED
+                                     plain rendering set by the constructor
       [Heading level children]       a heading; [children] = its inline content ([ILit] / [IBrace])
       [Code fenced lang src pos plain]  an indented ([fenced = false]) or fenced code block: language,
                                      code text, marko's source offset [pos], and [plain] = the HTML marko's
@@ -25,7 +29,7 @@
     Placeholders: [generate_placeholder()] is "%" + slug + "%"; the 32 random letters [slug]
     are drawn from a stream [slugs] (the harness records the ones the implementation drew).
 
-    Oracles (parameters): [compile] = recipe_grid.compiler.compile on the padded block texts of
+    Oracles (parameters): [alt_escape] = marko's [HTMLRenderer.escape_html]; [compile] = recipe_grid.compiler.compile on the padded block texts of
     one group ([None] = it raised); [render_block k prefix trees] = the list
     [render_recipe_tree(t, prefix) for t in Recipe(trees).scale(k).recipe_trees]
     (modelled elsewhere: C01.. for compile, C02/C04 for tables).
@@ -145,11 +149,12 @@ Definition svs_scale (k : num) (l : svs) : option svs := option_map svs_norm (sc
 
 (** ** The abstract document *)
 
-Inductive inl := ILit (h : str) | IBrace (src : str).
+Inductive inl := ILit (h : str) | IBrace (src : str) | IAlt (src : str).
 
 Inductive item :=
 | Lit (h : str)
 | Brace (src : str)
+| Alt (src : str)
 | Heading (level : N) (children : list inl)
 | Code (fenced : bool) (lang : str) (src : str) (pos : N) (plain : str).
 
@@ -218,6 +223,31 @@ Definition set_svs (st : rstate) (ph : str) (v : svs) : rstate :=
 Definition lift_bres {A} (r : bres A) : mres A :=
   match r with BOk v => MOk v | BOverflow => MErr EOverflow | BValueError => MErr EValueError end.
 
+(** [str(ScaledValueString)]: numbers through [format_number], texts as they are. *)
+Fixpoint svs_plain (l : svs) : option str :=
+  match l with
+  | [] => Some []
+  | PStr x :: r => option_map (app x) (svs_plain r)
+  | PNum v :: r =>
+      match format_number v, svs_plain r with
+      | Some a, Some b => Some (a ++ b)
+      | _, _ => None
+      end
+  end.
+
+Section Oracles.
+  Variable alt_escape : str -> str.
+  Variable compile : list str -> option (list (list node)).
+  Variable render_block : num -> str -> list node -> list str.
+
+(** A brace expression in image alt text: no placeholder, not scaled. *)
+Definition render_alt (st : rstate) (src : str) : mres (str * rstate) :=
+  v <- lift_bres (brace_parse src) ;;
+  match svs_plain v with
+  | Some x => MOk (alt_escape x, st)
+  | None => MErr EFormat
+  end.
+
 (** [render_scaled_value_expression] (the element's [string] was built by its constructor). *)
 Definition render_brace (st : rstate) (src : str) : mres (str * rstate) :=
   v <- lift_bres (brace_parse src) ;;
@@ -232,6 +262,10 @@ Fixpoint render_inls (st : rstate) (l : list inl) : mres (str * rstate) :=
       '(ph, st1) <- render_brace st src ;;
       '(x, st2) <- render_inls st1 r ;;
       MOk (ph ++ x, st2)
+  | IAlt src :: r =>
+      '(a, st1) <- render_alt st src ;;
+      '(x, st2) <- render_inls st1 r ;;
+      MOk (a ++ x, st2)
   end.
 
 Definition cls_serving_count : str := s "rg-serving-count".
@@ -300,6 +334,7 @@ Definition render_item (st : rstate) (it : item) : mres (str * rstate) :=
   match it with
   | Lit h => MOk (h, st)
   | Brace src => render_brace st src
+  | Alt src => render_alt st src
   | Heading level children => render_heading st level children
   | Code fenced lang src pos plain =>
       if is_recipe_block fenced lang then render_recipe_block st fenced (block_lang fenced lang) src pos
@@ -341,10 +376,6 @@ Fixpoint od_set_all {V} (kvs : list (str * V)) (l : list (str * V)) : list (str 
   | [] => l
   | (k, v) :: r => od_set_all r (od_set k v l)
   end.
-
-Section Oracles.
-  Variable compile : list str -> option (list (list node)).
-  Variable render_block : num -> str -> list node -> list str.
 
   (** Groups in document order; each compiled on its own. *)
   Fixpoint compile_groups (text : str) (groups : list (list (str * rsb))) (acc : list (str * crecipe))
@@ -453,6 +484,7 @@ End Oracles.
 (** ** Correspondence interface (suite [markdown]) *)
 
 (** Oracle tables recorded from the implementation. *)
+Definition escape_table : Type := list (str * str).
 Definition compile_table : Type := list (list str * list (list node)).
 Definition render_table : Type := list (num * str * list node * list str).
 
@@ -460,6 +492,12 @@ Definition lookup_compile (tb : compile_table) (srcs : list str) : option (list 
   match find (fun e => list_eqb str_eqb (fst e) srcs) tb with
   | Some e => Some (snd e)
   | None => None
+  end.
+
+Definition lookup_escape (tb : escape_table) (x : str) : str :=
+  match find (fun e => str_eqb (fst e) x) tb with
+  | Some e => snd e
+  | None => s "<<missing escape_html entry>>"
   end.
 
 (** A missing entry gives a text no implementation output contains. *)
@@ -473,6 +511,7 @@ Definition lookup_render (tb : render_table) (k : num) (prefix : str) (trees : l
 Record md_in := mkIn {
   in_doc : doc;
   in_slugs : list str;
+  in_escape : escape_table;
   in_compile : compile_table;
   in_render : render_table;
   in_scales : list num
@@ -487,7 +526,7 @@ Record md_obs := mkObs {
 }.
 
 Definition run_md (i : md_in) : mres (mdrecipe * list (mres str)) :=
-  m <- md_compile (lookup_compile (in_compile i)) (in_doc i) (in_slugs i) ;;
+  m <- md_compile (lookup_escape (in_escape i)) (lookup_compile (in_compile i)) (in_doc i) (in_slugs i) ;;
   MOk (m, map (fun k => md_render_compiled (lookup_render (in_render i)) k m) (in_scales i)).
 
 Definition mres_str_eqb (a : mres str) (b : str) : bool :=
